@@ -369,25 +369,37 @@ impl Annotated<Schema> {
                             // from the PlutusTx / LedgerApi Haskell codebase, which encodes some elements
                             // as such. We don't have a concept of language maps in Aiken, so we simply
                             // make all types abide by this convention.
-                            let data = match definitions.try_lookup(&generic).cloned() {
-                                Some(Annotated {
-                                    annotated: Schema::Pair(left, right),
-                                    ..
-                                }) => {
-                                    let left = left.map(|inner| match inner {
-                                        Schema::Data(data) => data,
-                                        _ => panic!("impossible: left inhabitant of pair isn't Data but: {inner:#?}"),
-                                    });
+                            // NOTE: Decide from the type itself, not from the generic's
+                            // definition: when the Pair is still being registered further up the
+                            // call stack (recursive types), its definition isn't resolved yet and
+                            // the list would wrongly be described as a plain list.
+                            let data = match as_pair(
+                                args.first()
+                                    .expect("List types have always one generic argument"),
+                                type_parameters,
+                            ) {
+                                Some((fst, snd)) => {
+                                    let left = Annotated::do_from_type(
+                                        &fst,
+                                        modules,
+                                        type_parameters,
+                                        definitions,
+                                    )?;
 
-                                    let right = right.map(|inner| match inner {
-                                        Schema::Data(data) => data,
-                                        _ => panic!("impossible: right inhabitant of pair isn't Data but: {inner:#?}"),
-                                    });
+                                    let right = Annotated::do_from_type(
+                                        &snd,
+                                        modules,
+                                        type_parameters,
+                                        definitions,
+                                    )?;
 
-                                    Data::Map(left, right)
+                                    Data::Map(
+                                        Declaration::Referenced(left),
+                                        Declaration::Referenced(right),
+                                    )
                                 }
 
-                                _ => Data::List(Items::One(Declaration::Referenced(generic))),
+                                None => Data::List(Items::One(Declaration::Referenced(generic))),
                             };
 
                             Ok(with_title(title.as_ref(), Schema::Data(data)))
@@ -571,6 +583,28 @@ impl Data {
         }
 
         Ok(Data::AnyOf(variants))
+    }
+}
+
+/// Whether a type is, once links and instantiated generics are followed, a `Pair`.
+fn as_pair(
+    tipo: &Type,
+    type_parameters: &HashMap<u64, Rc<Type>>,
+) -> Option<(Rc<Type>, Rc<Type>)> {
+    match tipo {
+        Type::Pair { fst, snd, .. } => Some((fst.clone(), snd.clone())),
+        Type::Var { tipo, .. } => match tipo.borrow().deref() {
+            TypeVar::Link { tipo } => as_pair(tipo, type_parameters),
+            TypeVar::Generic { id } => type_parameters.get(id).and_then(|t| {
+                if t.get_generic_id() == Some(*id) {
+                    None
+                } else {
+                    as_pair(t, type_parameters)
+                }
+            }),
+            TypeVar::Unbound { .. } => None,
+        },
+        Type::App { .. } | Type::Tuple { .. } | Type::Fn { .. } => None,
     }
 }
 
